@@ -181,6 +181,12 @@ def run(ctx):
     e = npc.Experiment([0, 1], [[1.0], [2.0]])
     tests = npc.Experiment.make_test_array(npc.Experiment.TestFunc.mean_diff, [0])
     weird = [None, 3, "x", [1, 2], {"a": 1}, np.array([1, 2]), (np.array([0, 1]), np.array([[1.0], [2.0]])), (), (1,), (1, 2, 3), npc.randomize_group, npc.Experiment]
+    class Randomizer:      # a look-alike: same name, same attributes, not the library's class
+        def __init__(self):
+            self.randomize = npc.randomize_group; self.prng = None; self.seed = None
+        def reset_seed(self, seed=None):
+            pass
+    weird = weird + [Randomizer(), Randomizer]
     for obj in weird:
         kw_ = ctx.rng.choice([dict(seed=5), dict(seed=np.random.RandomState(3)), dict(reps=3, seed=0), dict(in_place=True, seed=7), dict(reps=0)])
         for what, call in [("sim_npc with data of type " + type(obj).__name__, lambda obj=obj: npc.sim_npc(obj, tests)),
